@@ -44,6 +44,9 @@ struct Hello {
     decl: bool,
     server_waits: bool,
     client_send_stall: usize,
+    /// the client's own hello meets a write error: Some(false) = nothing goes out, Some(true) = the
+    /// bytes go out but the write reports an error. Either way the session must not come up.
+    client_send_fault: Option<bool>,
 }
 
 const EXTRA_CAPS: [&str; 8] = [
@@ -118,6 +121,7 @@ fn gen_hello(ctx: &mut Ctx) -> Hello {
         decl: ctx.pick(3) == 0,
         server_waits: ctx.pick(2) == 1,
         client_send_stall: ctx.pick(3),
+        client_send_fault: ctx.chance(1, 16).then(|| ctx.pick(2) == 1),
     }
 }
 
@@ -200,6 +204,7 @@ fn run(ctx: &mut Ctx) -> Verdict {
     let obs: Arc<Mutex<Option<Obs>>> = Arc::default();
     let obs2 = obs.clone();
     let stall = h.client_send_stall;
+    let send_fault = h.client_send_fault;
     let (q, exec) = drive(
         ctx,
         Box::new(server),
@@ -207,7 +212,10 @@ fn run(ctx: &mut Ctx) -> Verdict {
         SchedCfg { permute: true, spurious: 1, ..SchedCfg::default() },
         move |net, _| {
             Box::pin(async move {
-                net.lock().unwrap().send_stalls.push_back(stall);
+                net.lock().unwrap().send_stalls.push_back(if send_fault.is_some() { 0 } else { stall });
+                if let Some(after_bytes) = send_fault {
+                    net.lock().unwrap().send_after.push_back(if after_bytes { usize::MAX } else { usize::MAX - 1 });
+                }
                 match Session::verif_new(SimTransport(net)).await {
                     Ok(mut s) => {
                         let c = s.context();
@@ -232,6 +240,17 @@ fn run(ctx: &mut Ctx) -> Verdict {
     let Some((est, first)) = obs.lock().unwrap().clone() else {
         return Verdict::violation("no-result", "establishment produced no result".to_string());
     };
+    if let Some(after_bytes) = h.client_send_fault {
+        ctx.count("fault.client_hello_write_error");
+        ctx.nontrivial = true;
+        return match est {
+            Ok((sid, version, _)) => Verdict::violation(
+                "established-despite/client-hello-send-failed",
+                format!("session established (id {sid}, {version}) although writing the client's hello failed ({}); hello {h:?}", if after_bytes { "after the bytes went out" } else { "nothing went out" }),
+            ),
+            Err(_) => Verdict::Pass,
+        };
+    }
     let Some(client) = client_caps.lock().unwrap().clone() else {
         return Verdict::violation("client-hello-missing", "the server never received a parseable client hello".to_string());
     };
@@ -306,7 +325,7 @@ pub static C12: PropSpec = PropSpec {
     runs: |t| if t == Tier::Thorough { 20_000_000 } else { 150_000 },
     enumerated: |t| crate::props::c12_tls::count(t),
     run,
-    rule: "seeded: server hellos from the matrix base {1.0, 1.1, both, neither} x other capabilities x session-id {valid incl. 1 and 2^32-1, 0, 2^32, negative, missing, duplicated, zero-padded, non-numeric, empty} x namespace prefix/default x with or without an XML declaration x element order x wrong namespace / missing <capabilities> / a second <capabilities> element with another list / an element named capability in a foreign namespace (it may be ignored or the hello refused, but it never counts as a capability); the hello is available before the client's hello is accepted, or the server waits for the client hello first; client send back-pressure; permuted scheduling with spurious polls. enumerated: real TLS transport against a peer that uses RFC 6242 chunked framing when both hellos advertise :base:1.1. Non-trivial = the hello should establish a session; distinct = distinct event-log hash",
+    rule: "seeded: server hellos from the matrix base {1.0, 1.1, both, neither} x other capabilities x session-id {valid incl. 1 and 2^32-1, 0, 2^32, negative, missing, duplicated, zero-padded, non-numeric, empty} x namespace prefix/default x with or without an XML declaration x element order x wrong namespace / missing <capabilities> / a second <capabilities> element with another list / an element named capability in a foreign namespace (it may be ignored or the hello refused, but it never counts as a capability); the hello is available before the client's hello is accepted, or the server waits for the client hello first; client send back-pressure, or a write error on the client's own hello (before or after the bytes went out: the session must then not come up, and establishment must not hang); permuted scheduling with spurious polls. enumerated: real TLS transport against a peer that uses RFC 6242 chunked framing when both hellos advertise :base:1.1. Non-trivial = the hello should establish a session; distinct = distinct event-log hash",
     components: &[
         ("netconf session.rs, hello.rs, capabilities.rs", "real"),
         ("transport", "seeded part: in-memory stub; enumerated part: real tls.rs over loopback TCP"),
